@@ -18,6 +18,7 @@ EXPLANATION = (
     "R6: validation inspects the instruction expansion will use (= C05.R2). R7: cross-table completeness: a name that is a real instruction at one level "
     "(type / member) but not at the other is diagnosed (Misplaced / Misnamed) at the other level. "
     " R1's dispatch list is read off the partial evaluation of `validate` (loops over constant tables run concretely). R8 imports the contracts of the lookups validation reaches. R9 compares, for every diagnostic emission, the complete path condition (if / if-let / match-arm conditions, early exits, iterator filters; alpha-normalised conjunct sets) with the confirmed table o2ov/data/c15_guards.json: superset = class narrowed, subset = valid input rejected, otherwise INCONCLUSIVE. R10 imports the trait-level repeat protocol (C14).")
+EXPLANATION += " R10 also imports the trait-repeat category slots (C14.R2: name <-> slot <-> guarded parameter of the 'will be overriden' conflicts); R12 imports C12.R5 (uniqueness classes on for single-entry vectors, off for per-kind ones)."
 NOT_DECIDED = ["that every conceivable misuse has a rule", "that no valid input is rejected by an over-eager rule (only C05.R2's disagreement is reported)", "message wording"]
 
 
